@@ -11,21 +11,23 @@ CHECKS = {
         "for 13 (quick) / 21 (thorough) parameter sets with N=2..64, 2..7 primes of 20..60 bits in mixed order; each distinct (action, arguments, operand typestate) is executed on the library and "
         "the decrypted plaintext (BFV/BGV exact; CKKS within the model's worst-case bound), level, representation, seededness, scale bits and validity are compared.",
    ref="DESIGN.md 4/C01", note=HE_NOTE),
- "C02": dict(cat="model_checking", tech="TLA+ spec HE.tla model-checked by TLC; one replay per transition class of the state graph on the real Evaluator",
+ "C02": dict(cat="model_checking", tech="TLA+ spec HE.tla model-checked by TLC; one replay per transition class of the state graph on the real Evaluator (spec->impl) + recorded seeded-random programs validated by TLC against spec/Trace_HE.tla (impl->spec)",
    text="All operation programs up to depth 6 (quick) / 8 (thorough) over a pool of 2-3 ciphertexts and a plaintext: negate/add/sub/multiply/square/relinearize/plain ops/NTT changes/mod switch, "
         "sizes up to 9, all levels, both representations, BGV correction-factor combinations; TLC computes the expected polynomial in Z_t[X]/(X^N+1) and the harness demands exact equality "
-        "whenever the model's worst-case noise is below threshold.", ref="DESIGN.md 4/C02", note=HE_NOTE),
- "C03": dict(cat="model_checking", tech="TLA+ spec HE.tla (CKKS instance) model-checked by TLC; replay of every transition class; scale compared bit-exactly against the IEEE evaluation of the model's scale expression",
+        "whenever the model's worst-case noise is below threshold. Plus 100 (quick) / 1600 (thorough) recorded programs of 80..150 calls chosen by a driver from the state of the real objects (incl. ill-typed calls, "
+        "a second secret key, corruptions): every call is judged by the specification's verdict, its result projection, values, API-form agreement and a noise-budget floor.", ref="DESIGN.md 4/C02, 4.5", note=HE_NOTE),
+ "C03": dict(cat="model_checking", tech="TLA+ spec HE.tla (CKKS instance) model-checked by TLC; replay of every transition class; scale compared bit-exactly against the IEEE evaluation of the model's scale expression; recorded programs validated against spec/Trace_HE.tla",
    text="All CKKS programs up to depth 6/7 over Gaussian-integer slot vectors (negative, imaginary, mixed magnitude), two fresh scales, mixed-size prime chains; decoded slots must be within 2^nb of "
         "the exact expected value (nb = worst-case bound carried by the model), scale bit-exact, and level/scale mismatches and oversize scales must be refused.", ref="DESIGN.md 4/C03", note=HE_NOTE),
- "C04": dict(cat="model_checking", tech="TLA+ spec HE.tla/Plain.tla (automorphism X->X^g, slot rotation) model-checked by TLC; replay on the real Evaluator with default (NAF-composed) and complete Galois key sets",
+ "C04": dict(cat="model_checking", tech="TLA+ spec HE.tla/Plain.tla (automorphism X->X^g, slot rotation, key switching from a second secret key) model-checked by TLC; replay on the real Evaluator with default (NAF-composed) and complete Galois key sets; recorded programs validated against spec/Trace_HE.tla",
    text="Every odd Galois element and every rotation step 0<|s|<N/2, column swap / conjugation, at every level, for BFV/BGV/CKKS at N=8 and N=16 (thorough also N=32), with the required key present "
-        "directly or composed from the power-of-two keys; expected polynomial / slot vector computed by TLC.", ref="DESIGN.md 4/C04", note=HE_NOTE),
- "C05": dict(cat="model_checking", tech="TLA+ spec HE.tla (chain actions, LevelRule action property) + Chain.tla liveness model-checked by TLC; replay of every transition class in all three API forms under a per-call deadline",
+        "directly or composed from the power-of-two keys; expected polynomial / slot vector computed by TLC. Key switching: ciphertexts encrypted under a second secret key (four modes), operated on under that key, "
+        "switched with apply_keyswitching and used under the context's key, on 5 parameter sets.", ref="DESIGN.md 4/C04", note=HE_NOTE),
+ "C05": dict(cat="model_checking", tech="TLA+ spec HE.tla (chain actions, LevelRule action property) + spec/Chain.tla (the to-target loop: termination under weak fairness, ends on target; the pinned-commit loop refuted) model-checked by TLC; replay of every transition class in all three API forms under a per-call deadline",
    text="All (source level, target level) pairs of chains with 1..4 (quick) / 1..6 (thorough) levels, sizes 2..3, three schemes, ciphertext and plaintext switching, to-next and to-target, "
         "in-place / destination / value-returning forms; result level, message, BGV correction factor, CKKS scale (bit-exact) compared; upward / past-the-end / non-CKKS rescale must be refused; "
         "a call that does not return within the deadline is reported as non-termination.", ref="DESIGN.md 4/C05", note=HE_NOTE),
- "C06": dict(cat="model_checking", tech="TLA+ spec HE.tla (full action set + single-field corruptions, verdict ok/refuse/unconstrained) model-checked by TLC; replay of every transition class, three API forms compared byte-for-byte",
+ "C06": dict(cat="model_checking", tech="TLA+ spec HE.tla (full action set + single-field corruptions, verdict ok/refuse/unconstrained) model-checked by TLC; replay of every transition class, three API forms compared byte-for-byte; recorded programs validated against spec/Trace_HE.tla",
    text="Every action of the specification from every reachable operand typestate up to depth 3/4, including the 7 single-field corruptions, seeded operands, level and representation mismatches; "
         "results must pass is_valid_for and an independently written validity predicate; the in-place, destination and value-returning forms must agree bit-for-bit; must-refuse operands must panic.",
    ref="DESIGN.md 4/C06", note=HE_NOTE),
@@ -86,10 +88,10 @@ CHECKS.update({
    text="Design: PackAlgo = PackSpec and TraceAlgo = TraceSpec for all k <= N, N = 4, 8, 16 (thorough 2..32). Binding: for BFV/BGV/CKKS at N = 4..16 (..32): extract+assemble of every index from both representations, "
         "field trace for every parameter, packing of every count 1..N on random small messages; decrypted polynomials must equal the specification (CKKS after rounding, deviation < 0.1).",
    ref="DESIGN.md 4/C19", note="Trusted: TLC, spec/Lwe.tla, the decrypt/decode projection of harness/src/c19.rs. N up to 32 only."),
- "C20": dict(cat="model_checking", tech="trace validation (impl->spec): results of the real matmul / conv2d helpers on enumerated small shapes checked by TLC against the functional specification spec/MatMul.tla",
+ "C20": dict(cat="model_checking", tech="trace validation (impl->spec): results of the real matmul / conv2d helpers on enumerated small shapes checked by TLC against the functional specification spec/MatMul.tla; spec/Cheetah.tla (refinement: block search, index maps, block-wise negacyclic products) model-checked and bound to the helper's block choice, encoded polynomials and term lists",
    text="Cheetah coefficient-packing matmul on every shape (m,r,n) in 1..4 (1..6) x three objectives x cipher*plain / plain*cipher x packing on/off with selected-terms transport, bias and encode/decrypt round trip, plus multi-ciphertext / partial-block shapes; "
         "the three BOLT slot-packing variants; conv2d over image 2..7 (2..9) x kernel up to 2x3 x channel/batch combinations incl. height and width tiling; every result must equal Y = XW + B mod t resp. the valid cross-correlation.",
-   ref="DESIGN.md 4/C20", note="Trusted: TLC, spec/MatMul.tla. BFV only (the CKKS variants and the RNS-plaintext wrapper are not exercised); the block search / index maps are covered functionally, not by a refinement model."),
+   ref="DESIGN.md 4/C20", note="Trusted: TLC, spec/MatMul.tla. BFV only (the CKKS variants and the RNS-plaintext wrapper are not exercised); the Cheetah block search / index maps have a refinement model, conv2d and BOLT are covered functionally only."),
 })
 CHECKS.update({
  "C10": dict(cat="model_checking", tech="trace validation (impl->spec): per-coefficient results of the real RNS routines, on inputs built from known integers, checked by TLC against the integer post-conditions of spec/Rns.tla over BigNat",
